@@ -116,6 +116,44 @@ def run(ck, tier):
     except factsmod.MissingAnchor as e:
         ck.missing_anchor(str(e), "C11.decode-validates")
 
+    ck.rule("C11.child-options-derived", "every SortOptions that Codec::new builds for a child converter (descending: false) derives nulls_first from BOTH the parent's "
+            "nulls_first and descending flags (the parent inverts the child's bytes as a whole, so nulls_first must be pre-flipped); siblings: dictionary, list, struct, run-end", floor=4)
+    try:
+        fn = F.fn("arrow_row::Codec::new")
+        b = Body(fn)
+        so = F.adt("arrow_schema::SortOptions")
+        names = [f["name"] for f in so["variants"][0]["fields"]]
+        di, ni = names.index("descending"), names.index("nulls_first")
+        k = 0
+        for bl in range(b.n):
+            for st in b.stmts(bl):
+                if st[0] == "a" and st[2][0] == "agg" and st[2][1][0] == "adt" and st[2][1][1] == "arrow_schema::SortOptions":
+                    ops = st[2][2]
+                    if not (ops[di][0] == "k" and ops[di][1] == "false"):
+                        continue
+                    k += 1
+                    l = op_local(ops[ni])
+                    fields = set()
+                    if l is not None:
+                        seen, _ = b.back_slice(l)
+                        for x in seen:
+                            for d in b.defs().get(x, []):
+                                if d[0] == "s":
+                                    for op in rvalue_operands(d[3]):
+                                        pl = op_place(op)
+                                        if pl is not None:
+                                            for e in pl[1]:
+                                                if isinstance(e, list) and e[0] == "f" and e[2] in ("nulls_first", "descending"):
+                                                    fields.add(e[2])
+                    key = "Codec::new SortOptions#%d" % k
+                    if fields == {"nulls_first", "descending"}:
+                        ck.ok("C11.child-options-derived", key, "nulls_first = f(nulls_first, descending)")
+                    else:
+                        ck.bad("C11.child-options-derived", key, "a child converter's SortOptions at %s:%s derives nulls_first from %s only: with descending = true nulls of that nested "
+                               "type sort on the wrong side" % (fn["file"], st[3], sorted(fields) or "a constant"), "%s:%s" % (fn["file"], st[3]))
+    except factsmod.MissingAnchor as e:
+        ck.missing_anchor(str(e), "C11.child-options-derived")
+
     ck.rule("C11.same-converter-asserted", "convert_rows and Rows::push assert Arc::ptr_eq(row.config.fields, self fields) (the safety argument of the unsafe decode)", floor=2)
     for iid, fid in (("rows-push", "arrow_row::Rows::push"), ("convert_rows", "arrow_row::RowConverter::convert_rows")):
         fns = [F.fn(fid)] + [cl for cl in c.closures_of.get(F.fn(fid)["id"], []) if "mir" in cl]
